@@ -9,10 +9,9 @@ NAMESPACE = 'VL.C04'
 LEAN_MODULES = ['VotelibProofs.Props.C04']
 GEN_MODULES = ['Quota']
 REQUIRED = ['pscCheck_sound_complete', 'unsupported_coalition_trivial', 'droop_at_least_half', 'hare_at_least_half',
-            'majority_first_choice_wins', 'result_shape', 'droop_positive', 'hare_positive', 'full_list_or_refusal',
+            'majority_first_choice_wins', 'mutual_majority', 'result_shape', 'droop_positive', 'hare_positive', 'full_list_or_refusal',
             'no_infinite_loop', 'psc_shared_rank_witness', 'psc_shared_rank_witness_spec']
-UNPROVED = ['mutual_majority (single seat, coalitions without shared ranks)',
-            'psc_droop (general: n seats, k quotas; checked on every outcome with the verified pscCheck instead)']
+UNPROVED = ['psc_droop (general: n seats, k quotas; checked on every outcome with the verified pscCheck instead)']
 REQUIRED_COUNTERS = ['coalition_k_ge_1_and_larger', 'refusal', 'hare', 'shared_ranks', 'majority_winner', 'psc_false',
                      'multi_seat', 'hare_quota', 'impl_outcome_checked', 'fraction_weights']
 RULE = ('ranked profiles over 1-6 candidates, 1-10 ballot types, with and without shared ranks, truncated ballots, weights from a '
@@ -377,6 +376,8 @@ TECHNIQUE = ('Lean 4 proofs about the executable STV model (majority winner, res
 LEVEL_TEXT = ('TransferableVoteSelector.evaluate is the Lean model of C03 run to completion (the independently computed weighted-inclusive-'
               'Gregory count of the statement). Proved for all profiles: a sole first choice on more than half of the votes wins a '
               'single-seat count (any transferer meeting the specification, Droop/Hare quota, with and without shared ranks elsewhere); '
+              'mutual majority for one seat (a coalition solidly supported by more than half of the votes through ballots without shared '
+              'ranks supplies the winner); '
               'every returned list has exactly n distinct candidates of the profile; with Gregory transfer, eliminate_step -1 and no '
               'mandatory quota the evaluation returns such a list or refuses with NotImplementedError whenever 1 <= n <= #candidates '
               '(no infinite loop, no other outcome); the decidable checker pscCheck is sound and complete for proportionality for solid '
@@ -385,4 +386,4 @@ LEVEL_TEXT = ('TransferableVoteSelector.evaluate is the Lean model of C03 run to
               'the supporters of a coalition share a rank inside it (witness theorem, known finding, proposed fix).')
 LEVEL_NOTE = ('Trusted: Lean kernel + propext/Classical.choice/Quot.sound; translate.py for the quota functions; the correspondence '
               'harness (<= 6 candidates, <= 10 ballot types); random module replaced by recorded draws; frozenset iteration order. '
-              'Unproved: mutual majority and general PSC for the count (checked per outcome by the verified checker).')
+              'Unproved: general PSC for the count (n seats, k quotas) - checked per outcome by the verified checker.')
